@@ -76,7 +76,7 @@ def check_parity(rep, prog):
         n += 1
         what = 'update_parities: child parity = parent parity XOR [predecessor edge is signed], root parity false'
         setp = fn.param_ids[0] if fn.param_ids else None
-        emplaces = [c for c in fn.walk() if c.k == 'CXXMemberCallExpr' and c.callee and c.callee['name'] in ('emplace', 'push')]
+        emplaces = [c for c in fn.walk() if c.k == 'CXXMemberCallExpr' and c.callee and c.callee['name'] in ('emplace', 'push', 'emplace_back', 'push_back')]
         seeds = [c for c in emplaces if c.enclosing('WhileStmt', 'ForStmt', 'CXXForRangeStmt') is None]
         inner = [c for c in emplaces if c not in seeds]
         probs = []
@@ -88,9 +88,21 @@ def check_parity(rep, prog):
                     probs.append('the root is not seeded with parity false')
         found = False
 
+        def is_carried(y):
+            # the value that travels with the popped entry: <entry>.info, or a component (.first / .second) of work.top() / back() / front()
+            if y.k == 'MemberExpr' and y.decl and y.decl.get('name') == 'info':
+                return True
+            if y.k == 'MemberExpr' and y.decl and y.decl.get('name') in ('first', 'second') and y.c and (y.type or {}).get('bool'):
+                b = y.c[0].strip_all()
+                bv = ex.var_of(b)
+                if bv is not None and ex.unique_def(fn, bv) is not None:
+                    b = ex.unique_def(fn, bv).strip_all()
+                return b.k == 'CXXMemberCallExpr' and b.callee and b.callee['name'] in ('top', 'back', 'front')
+            return False
+
         def mentions_info(x):
             for y in x.walk():
-                if y.k == 'MemberExpr' and y.decl and y.decl.get('name') == 'info':
+                if is_carried(y):
                     return True
                 if y.k == 'DeclRefExpr' and y.decl_id is not None and resolve_bool(fn, y) is not y and depth_guard[0] < 3:
                     depth_guard[0] += 1
@@ -113,7 +125,7 @@ def check_parity(rep, prog):
                         if m is not None and ex.var_of(m[0]) == setp:
                             return 'signed' if m[2] else None
                         s = l2.strip_all()
-                        if s.k == 'MemberExpr' and s.decl and s.decl.get('name') == 'info':
+                        if is_carried(s):
                             return 'parent'
                         return None
                     # membership may be negative-polarity: handle by evaluating both encodings
@@ -240,6 +252,80 @@ def check_parity(rep, prog):
 RELAX_FUNCS = ('parmcb::detail::search_frontier::update', 'parmcb::dijkstra', 'parmcb::lex_dijkstra', 'parmcb::is_bfs_reachable', 'parmcb::bfs')
 
 
+def is_fill_value(fn, mapvar, expr):
+    """is `expr` the value every slot of the table behind property map `mapvar` was initialised with: the map is built over a
+    std::vector constructed as V(n, F) and expr denotes F (same expression, or both resolve to the same constant definition)"""
+    if mapvar is None:
+        return False
+    md = ex.unique_def(fn, mapvar)
+    if md is None:
+        return False
+
+    def resolved_key(e):
+        v = ex.var_of(e)
+        if v is not None and fn.prog.vars[v].get('kind') == 'local':
+            d = ex.unique_def(fn, v)
+            if d is not None:
+                return ex.key(d)
+        return ex.key(e)
+    for n in fn.walk():
+        if n.k == 'VarDecl' and n.c and ex.refs_var(md, n.decl_id):
+            c0 = n.c[0].strip()
+            t = fn.prog.base_type(n.j.get('t')) or {}
+            if c0.k in ex.CTOR_KINDS and len(c0.c) >= 2 and (t.get('rec') or '') == 'std::vector':
+                fill = c0.c[1]
+                if ex.key(fill) == ex.key(expr) or resolved_key(fill) == resolved_key(expr):
+                    # nothing else may store the sentinel: checked by the caller through the stored labels
+                    return True
+    return False
+
+
+def opaque_decides(fn, pc, atoms, others, bad, wk, bfs=False):
+    """the unrecognised condition (node) on which the verdict depends, when that condition looks at the relaxed vertex / its labels: in some
+    feasible context (valuation of the unrecognised conditions under which a label store is reachable) every row of the contract holds, in
+    another one it does not - the condition may be a (pre)test of the comparison, which the truth table cannot see"""
+    good_ctx = False
+    for vals in itertools.product((False, True), repeat=len(others)):
+        e0 = dict(zip(others, vals))
+        rows_ok = True
+        any_store = False
+        for vis in (False, True):
+            for order in ('lt', 'eq', 'gt'):
+                for srcv in ((False, True) if 'is_source' in atoms else (False,)):
+                    e = dict(e0, visited=vis, lt=order == 'lt', gt=order == 'gt', is_source=srcv)
+                    e = {k: v for k, v in e.items() if k in atoms}
+                    got = bool(ex.f_eval(pc, e))
+                    any_store = any_store or got
+                    if srcv:
+                        want = False
+                    elif not vis:
+                        want = True
+                    elif order == 'eq':
+                        continue
+                    else:
+                        want = (order == 'lt') and not bfs
+                    if got != want:
+                        rows_ok = False
+        if any_store and rows_ok:
+            good_ctx = True
+    if not good_ctx:
+        return None
+    for a in others:
+        if isinstance(a, tuple) and a and a[0] == 'opaque':
+            n = fn.nodes.get(a[1])
+            if n is None:
+                continue
+            for x in n.walk():
+                if ex.key(x) == wk:
+                    return n
+                v = ex.var_of(x)
+                if v is not None:
+                    d = ex.unique_def(fn, v)
+                    if d is not None and any(ex.key(y) == wk for y in d.walk()):
+                        return n
+    return None
+
+
 def check_relaxation(rep, prog):
     n = 0
     for gname in RELAX_FUNCS:
@@ -292,6 +378,17 @@ def check_relaxation(rep, prog):
                             if idx.k == 'CXXOperatorCallExpr' and idx.op == '[]' and len(idx.c) == 3 and ex.key(idx.c[2]) == wk:
                                 vis_kind['flags'] = tv
                                 return ex.f_atom('visited')
+                    # visited: get(dist_map, w) != <the value the distance table was filled with> (a sentinel meaning "not discovered")
+                    if s.k in ('BinaryOperator', 'CXXOperatorCallExpr') and s.op in ('==', '!='):
+                        ops_ = s.c if s.k == 'BinaryOperator' else s.c[1:]
+                        if len(ops_) == 2:
+                            for a_, b_ in ((ops_[0], ops_[1]), (ops_[1], ops_[0])):
+                                ga = a_.strip_all()
+                                if ga.k == 'CallExpr' and ga.callee and ga.callee['g'] == 'boost::get' and len(ga.args()) == 2 and ex.key(ga.args()[1]) == wk and \
+                                        is_fill_value(fn, ex.var_of(ga.args()[0]), b_):
+                                    vis_kind['sentinel'] = ex.var_of(ga.args()[0])
+                                    f_ = ex.f_atom('visited')
+                                    return f_ if s.op == '!=' else ex.f_not(f_)
                     # less(c, dist[w])
                     if s.k == 'CXXOperatorCallExpr' and s.op == '()' and len(s.c) == 4:
                         b = s.c[3].strip_all()
@@ -350,6 +447,9 @@ def check_relaxation(rep, prog):
                         rep.undecided('R02h', group[0], fn, what, 'relaxation guard outside the idiom table')
                     else:
                         rep.violation('R02h', group[0], fn, what, 'labels are overwritten without testing whether the vertex was visited', key='R02h|%s|unguarded' % fn.g)
+                elif bad and opaque_decides(fn, pc, atoms, others, bad, wk, bfs):
+                    rep.undecided('R02h', group[0], fn, what, 'the relaxation additionally depends on `%s`, a test of the labels that is outside the idiom table' %
+                                  opaque_decides(fn, pc, atoms, others, bad, wk, bfs).text(50))
                 elif bad:
                     vis, order, srcv, got = bad
                     rep.violation('R02h', group[0], fn, what,
